@@ -14,7 +14,7 @@ A. STRUCTURAL EXTRACTION.  For every method / property setter of the cache-ownin
 B. FUNCTIONAL TRANSLATION (token level).  The bodies of the mutators whose effect the model states as a function on its token
    structures (`CR.Cache.TPred`, `CR.Cache.Obs`, `CR.Cache.Lan`, `CR.Cache.Cyc`) are translated statement by statement into Lean
    `def`s over those structures: an attribute assignment becomes a record update, `self.history.append(x)` a list append,
-   `l[-m:]` `CR.PyC11.sliceLast`, `assert` `CR.Py.assert`, property assignments calls of the translated setter.  What an
+   `l[k:]` `CR.PyC11.sliceFrom`, `assert` `CR.Py.assert`, property assignments calls of the translated setter.  What an
    attribute / a call denotes is a per-target table (`FTarget`); a statement outside the table is `Unsupported` => `lost`.
 """
 from __future__ import annotations
@@ -530,8 +530,8 @@ class FTr:
                 return "(" + self.fmt(t.calls[d], [self.e(a) for a in n.args]) + ")"
             raise Unsupported(f"call {d}")
         if isinstance(n, ast.Subscript) and isinstance(n.slice, ast.Slice) and n.slice.upper is None and n.slice.step is None \
-                and isinstance(n.slice.lower, ast.UnaryOp) and isinstance(n.slice.lower.op, ast.USub):
-            return f"(CR.PyC11.sliceLast {self.e(n.value)} {self.e(n.slice.lower.operand)})"      # l[-m:]
+                and n.slice.lower is not None:
+            return f"(CR.PyC11.sliceFrom {self.e(n.value)} {self.e(n.slice.lower)})"      # l[k:]
         if isinstance(n, ast.ListComp) and len(n.generators) == 1 and not n.generators[0].ifs \
                 and isinstance(n.generators[0].target, ast.Name):
             g = n.generators[0]
